@@ -1273,6 +1273,12 @@ func (w *World) checkStepAI(r *Report, g *Grammar, all int64) {
 	}{{"text", text}, {"comment", comm}, {"node", all}} {
 		w.stepExpect(r, g, fn, "nodetype:"+c.n, c.n+"()", []tokSpec{{Tok: t.name, Name: c.n, CanBeFunc: true}, {Tok: t.lp}, {Tok: t.rp}}, "child", c.k, &empty, &empty)
 	}
+	// an NCName is a NodeType only when '(' follows: an element that happens to be
+	// called text, comment, node or processing-instruction is an ordinary name test
+	for _, n := range []string{"text", "comment", "node", "processing-instruction"} {
+		local := n
+		w.stepExpect(r, g, fn, "name-spelled-like-nodetype:"+n, "a name test spelled '"+n+"' (no '(' follows)", []tokSpec{nm(n)}, "child", elem, &local, &empty)
+	}
 }
 
 func (w *World) checkStepExpect(r *Report, g *Grammar) {
